@@ -283,6 +283,8 @@ def generate(rng, index, tier):
                                'how': rng.choice(('close', 'abort'))}
     if rng.random() < 0.1:
         plan['raising_listener'] = rng.choice(('message', 'status'))
+    if rng.random() < 0.1 and any(r['src'] != 'server' for r in reqs):
+        plan['close_on_reply'] = rng.choice([0.0, 0.01, 0.3])
     if rng.random() < 0.15:
         # connection requests for one user overlap while the server's answer with his address is outstanding; some of
         # the callers give up before it arrives
@@ -362,6 +364,16 @@ def corpus(tier):
                   {'arrive': 0.6, 'src': 'server', 'kind': 'status', 'arg': 'u1', 'val': 3},
                   {'arrive': 0.9, 'src': 'server', 'kind': 'status', 'arg': 'u1', 'val': 0}],
             cancels=[{'req': 0, 'on_msg': None, 'plus_iter': 0, 'at': 6.0}] if form == 'future' else []))
+    # 5c. the application hangs up on the peer inside the dispatch of the reply (and then takes its time)
+    for form in ('execute', 'wait', 'future'):
+        for kind in ('userinfo', 'shares'):
+            for slow in (0.0, 0.3):
+                out.append(dict(
+                    base, close_on_reply=slow,
+                    reqs=[{'id': 0, 'form': form, 'src': 'bob', 'kind': kind, 'arg': None,
+                           'timeout': None if form == 'future' else 3.0, 'at': 0.0}],
+                    msgs=[{'arrive': 0.5, 'src': 'bob', 'kind': kind, 'arg': None, 'val': 1}],
+                    cancels=[{'req': 0, 'on_msg': None, 'plus_iter': 0, 'at': 5.0}] if form == 'future' else []))
     # 6. right message from the other peer
     out.append(dict(
         base,
@@ -644,6 +656,23 @@ def _run(world: World, plan):
         client.events.register(UserStatusUpdateEvent if plan['raising_listener'] == 'status' else MessageReceivedEvent,
                                bad_listener, priority=5)
 
+    link_closed = {}
+    if plan.get('close_on_reply') is not None:
+        # an application listener (it runs after every other listener) that hangs up on a peer as soon as a reply of his has
+        # been handed round, and then takes its time: the connection is closed while its own reader is still dispatching
+        # the message; the requests the message answers are completed all the same
+        from aioslsk.network.connection import CloseReason
+
+        async def close_on_reply(event):
+            if isinstance(event.connection, PeerConnection) and type(event.message) in (
+                    M.PeerUserInfoReply.Request, M.PeerSharesReply.Request, M.PeerDirectoryContentsReply.Request):
+                world.net.fired['connection_closed_while_its_message_is_dispatched'] += 1
+                link_closed.setdefault(event.connection.username, loop.time())
+                await event.connection.disconnect(CloseReason.REQUESTED)
+                await asyncio.sleep(float(plan['close_on_reply']))
+        world.keep_alive.append(close_on_reply)
+        client.events.register(MessageReceivedEvent, close_on_reply, priority=5000)
+
     async def server_loss():
         """The server connection goes away (no reconnect) while requests are pending: nothing answers them any more, they
         have to end the way an unanswered request ends."""
@@ -765,14 +794,23 @@ def _run(world: World, plan):
         if call is None or call.invoked_at is None:
             continue
         reg = call.invoked_at
+        if req['src'] != 'server' and link_closed.get(req['src']) is not None and reg >= link_closed[req['src']] - EPS:
+            # the established link to that peer was closed by the application before the request was made: the request
+            # first needs a new connection (the scripted server does not hand out addresses) - outside the premise
+            world.probe('request_after_link_closed_not_judged')
+            continue
         deadline = reg + req['timeout'] if req['timeout'] else None
         cancel_t = getattr(call, 'cancel_time', None)
         end = min(x for x in (deadline, cancel_t, float('inf')) if x is not None)
         matching = [d for d in deliveries if spec_matches(req, d)]
         first_live = None
         ambiguous = []
+        # with the listener that hangs up inside the dispatch (and then takes its time) a peer's message completes its requests
+        # that much later than it was delivered
+        lag = (float(plan['close_on_reply']) + 0.5) if plan.get('close_on_reply') is not None and req['src'] != 'server' else 0.0
         for d in matching:
-            if abs(d['t'] - reg) <= EPS or abs(d['t'] - end) <= EPS:
+            if abs(d['t'] - reg) <= EPS or abs(d['t'] - end) <= EPS or (lag and (
+                    end - lag - EPS <= d['t'] <= end + EPS or reg - lag - EPS <= d['t'] <= reg + EPS)):
                 ambiguous.append(d)
                 nontrivial = True
                 world.probe('message_in_instant_of_deadline_or_cancel')
@@ -799,7 +837,7 @@ def _run(world: World, plan):
             stalled = bool(st) and req['src'] == 'server' and req['form'] == 'execute' and \
                 st['from'] < req['at'] < st['until']
             for a in acceptable:
-                same_instant = abs(a['t'] - t_ret) <= EPS
+                same_instant = abs(a['t'] - t_ret) <= EPS or (lag and a['t'] - EPS <= t_ret <= a['t'] + lag + EPS)
                 if stalled and a['t'] <= t_ret <= base + st['until'] + 1.0:
                     # the reply came while the request's own send was still suspended: the call returns once the send is done
                     same_instant = True
